@@ -7,6 +7,7 @@ use std::cell::RefCell;
 use std::collections::BTreeSet;
 use std::panic::{catch_unwind, AssertUnwindSafe};
 use std::path::PathBuf;
+use std::sync::Mutex;
 use std::sync::Once;
 
 use serde_json::{json, Value};
@@ -164,7 +165,80 @@ fn conv(br: avra_lib::builder::BuildResult) -> Built {
     }
 }
 
+// ---- watchdog: a build that does not come back -------------------------------------------------
+//
+// Every in-process build is entered in a table (start time, address and length of its source
+// text). A watchdog thread looks at the table once a second; a build that has been running for
+// longer than the deadline (VERIF_BUILD_DEADLINE_S, default 150 s: the largest programs of any
+// check take a few seconds) is a build that does not terminate. The watchdog then writes the
+// source as a replay artefact, prints the VIOLATION line for the running check and ends the
+// process with exit 1 - a check must never hang on a tree that hangs. (C16, whose subject this
+// is, runs its cases in sandboxed worker processes with their own limits.)
+static INFLIGHT: Mutex<Vec<Option<(std::time::Instant, usize, usize)>>> = Mutex::new(Vec::new());
+thread_local! {
+    static SLOT: usize = {
+        let mut t = INFLIGHT.lock().unwrap();
+        t.push(None);
+        t.len() - 1
+    };
+}
+
+struct InFlight(usize);
+
+impl Drop for InFlight {
+    fn drop(&mut self) {
+        if let Ok(mut t) = INFLIGHT.lock() {
+            t[self.0] = None;
+        }
+    }
+}
+
+fn enter(src: &str) -> InFlight {
+    let slot = SLOT.with(|s| *s);
+    INFLIGHT.lock().unwrap()[slot] = Some((std::time::Instant::now(), src.as_ptr() as usize, src.len()));
+    InFlight(slot)
+}
+
+pub fn start_watchdog() {
+    let deadline = std::env::var("VERIF_BUILD_DEADLINE_S").ok().and_then(|v| v.parse::<u64>().ok()).unwrap_or(150);
+    std::thread::spawn(move || loop {
+        std::thread::sleep(std::time::Duration::from_secs(1));
+        let stuck: Option<(usize, usize, f64)> = {
+            let t = INFLIGHT.lock().unwrap();
+            t.iter().flatten().filter(|(t0, _, _)| t0.elapsed().as_secs() >= deadline).map(|(t0, p, l)| (*p, *l, t0.elapsed().as_secs_f64())).next()
+        };
+        if let Some((p, l, secs)) = stuck {
+            // the thread is still inside the build: the text it was handed is alive
+            let text = unsafe { String::from_utf8_lossy(std::slice::from_raw_parts(p as *const u8, l)).to_string() };
+            let cur = crate::report::CURRENT.lock().unwrap().clone();
+            let (prop, tier, level, start) = cur.unwrap_or(("C16".to_string(), "quick", "exploration", std::time::Instant::now()));
+            let root = crate::report::verif_root();
+            let dir = root.join("replays").join(&prop);
+            let _ = std::fs::create_dir_all(&dir);
+            let path = dir.join("does-not-terminate.json");
+            let what = format!("a build started {:.0} s ago has not returned (deadline {} s): the check cannot decide anything for this program, and neither can a user", secs, deadline);
+            let doc = serde_json::json!({"property": prop, "key": format!("{}/build-does-not-terminate", prop), "what": what, "kind": "build_str",
+                "source": if text.len() > 200_000 { format!("{}…", &text[..200_000]) } else { text.clone() }, "source_len": text.len(), "expected": "ok or err"});
+            let _ = std::fs::write(&path, serde_json::to_string_pretty(&doc).unwrap());
+            println!("VIOLATION property={} replay={}", prop, path.display());
+            println!("  key={}/build-does-not-terminate cases=1 :: {}", prop, what);
+            let ev = serde_json::json!({
+                "property_id": prop, "tier": tier, "seed": 0, "level": level,
+                "coverage": {"evaluations": 0, "distinct_nontrivial": 0, "states": 0, "transitions": 0, "traces_validated_against_impl": 0, "exhaustive": false,
+                    "rule": "the run was ended by the watchdog: a build did not return within the deadline",
+                    "explanation": what, "samples": [doc["source"].as_str().map(|s| s.chars().take(2000).collect::<String>())],
+                    "checker_cmd": format!("./run {} {}", prop, tier), "trusted_base": [], "caps_hit": ["ended by the build watchdog"]},
+                "assumptions": [], "wall_s": (start.elapsed().as_secs_f64() * 1000.0).round() / 1000.0, "violations": 1});
+            let _ = std::fs::create_dir_all(root.join("evidence"));
+            let _ = std::fs::write(root.join("evidence").join(format!("{}.json", prop)), serde_json::to_string_pretty(&ev).unwrap() + "\n");
+            println!("{} {}: ended by the watchdog after {:.1}s", prop, tier, start.elapsed().as_secs_f64());
+            std::process::exit(1);
+        }
+    });
+}
+
 pub fn build_str(src: &str) -> Outcome {
+    let _in_flight = enter(src);
     match guarded(|| avra_lib::builder::build_str(src).map(conv).map_err(|e| e.to_string())) {
         Ok(Ok(b)) => Outcome::Ok(b),
         Ok(Err(e)) => Outcome::Err(e),
@@ -173,6 +247,8 @@ pub fn build_str(src: &str) -> Outcome {
 }
 
 pub fn build_file(path: PathBuf, paths: BTreeSet<PathBuf>) -> Outcome {
+    let shown = format!("; build_file of {}\n", path.display());
+    let _in_flight = enter(&shown);
     match guarded(|| {
         avra_lib::builder::build_file(path, paths)
             .map(conv)
